@@ -6,3 +6,5 @@ import CruxVerif.Props.C13
 #print axioms Props.C13.registry_bounded_full_false
 #print axioms Props.C13.registry_bounded_partial
 #print axioms Props.C13.finished_stream_entry_stays
+#print axioms Props.C13.finished_commands_leave_the_executor_flat
+#print axioms Props.C13.finished_commands_leave_the_executor_bridge_flat
